@@ -18,6 +18,7 @@ class IterTr:
         self.name = name
         self.params = params
         self.n = 0
+        self.depth = 0
         self.scope = [dict((p, p) for p in params)]
 
     def sym(self, b="t"):
@@ -76,10 +77,25 @@ class IterTr:
             f = e[1][1]
             if f == "Some":
                 return self.ev(e[2][0], lambda t: k("(Some %s)" % t))
-            if f == "slice_from_ptr_range":
-                return self.ev(e[2][0], lambda a: self.ev(e[2][1], lambda b: self.bindq("i_slice_from_ptr_range %s %s" % (a, b), k)))
             if f == "core::slice::from_raw_parts":
                 return self.ev(e[2][0], lambda a: self.ev(e[2][1], lambda b: self.bindq("q_raw_parts %s %s" % (a, b), k)))
+            hd = helper(f)
+            if hd is not None and len(hd[0]) == len(e[2]) and f != self.name and self.depth < 4:
+                # a private free function of iter.rs (slice_from_ptr_range, or any helper a refactoring extracts):
+                # its body is evaluated in place with the parameters bound to the argument values
+                names, blk = hd
+                def go(i, acc):
+                    if i == len(names):
+                        self.scope.append(dict(zip(names, acc)))
+                        self.depth += 1
+                        try:
+                            return self.stmts(blk[1], blk[2], lambda t: (self.scope.pop(), setattr(self, "depth", self.depth - 1), k(t))[2])
+                        except TranslationError:
+                            self.scope.pop()
+                            self.depth -= 1
+                            raise
+                    return self.ev(e[2][i], lambda t: go(i + 1, acc + [t]))
+                return go(0, [])
             raise TranslationError("%s: call %s" % (self.name, f))
         if kd == "block":
             return self.block(e, k)
@@ -136,8 +152,52 @@ class IterTr:
         raise TranslationError("%s: statement %s" % (self.name, s[0]))
 
 
+_TOKS = []
+_HELPERS = {}
+
+
+def helper(name):
+    """(parameter names, body block) of a free function `fn name(a: T, ..)` of iter.rs without `return`, or None"""
+    if name in _HELPERS:
+        return _HELPERS[name]
+    _HELPERS[name] = None
+    if "::" in name:
+        return None
+    try:
+        hdr, body = rsparse.find_fn(_TOKS, name, 0)
+    except TranslationError:
+        return None
+    i = next(j for j, t in enumerate(hdr) if t == ("op", "("))
+    j = rsparse.matching(hdr, i, "(", ")")
+    params, depth, cur = [], 0, []
+    for t in hdr[i + 1:j]:
+        if t[1] in ("(", "[", "<"):
+            depth += 1
+        elif t[1] in (")", "]", ">"):
+            depth -= 1
+        if t == ("op", ",") and depth == 0:
+            params.append(cur)
+            cur = []
+        else:
+            cur.append(t)
+    if cur:
+        params.append(cur)
+    names = []
+    for pt in params:
+        pt = [t for t in pt if t != ("ident", "mut")]
+        if len(pt) < 3 or pt[0][0] != "ident" or pt[1] != ("op", ":") or pt[0][1] == "self" or pt[0] == ("op", "&"):
+            return None
+        names.append(pt[0][1])
+    p = rsparse.RParser(body, {})
+    blk = p.parse_block_body(None)
+    if not p.done() or "('return'" in repr(blk):
+        return None
+    _HELPERS[name] = (names, blk)
+    return _HELPERS[name]
+
+
 METHODS = {}        # name -> (params, return coq type)
-ORDER = [("slice_from_ptr_range", ["start", "end_"], "(nat * nat)"), ("pos", [], "nat"), ("peek", [], "(option N)"),
+ORDER = [("pos", [], "nat"), ("peek", [], "(option N)"),
          ("peek_ahead", ["n"], "(option N)"), ("len", [], "nat"), ("is_empty", [], "bool"), ("commit", [], "unit"),
          ("advance", ["n"], "unit"), ("bump", [], "unit"), ("as_ref", [], "(nat * nat)"), ("slice", [], "(nat * nat)"),
          ("slice_skip", ["skip"], "(nat * nat)"), ("advance_and_commit", ["n"], "unit"), ("next", [], "(option N)")]
@@ -156,6 +216,8 @@ Local Open Scope ptr_scope.
 def generate(toks):
     out = [HEADER]
     errors = []
+    _TOKS[:] = toks
+    _HELPERS.clear()
     for name, params, rty in ORDER:
         METHODS[name] = (params, rty)
     for name, params, rty in ORDER:
